@@ -18,14 +18,17 @@ func (p *Pool) lazyResend() {
 
 	p.sendWg.Add(1)
 	go func() {
-		defer func() {
-			p.lazySendM.Unlock()
-			p.sendWg.Done()
-		}()
+		defer p.sendWg.Done()
 
 		for {
 			p.listM.Lock()
 			n := p.el.PopBack()
+			if n == nil {
+				// Give the flusher role back while the list is still locked: an event
+				// deferred from now on finds the role free and starts a new flusher.
+				// Releasing it after the unlock would strand such an event in the list.
+				p.lazySendM.Unlock()
+			}
 			p.listM.Unlock()
 			if n == nil {
 				vhook.At("wpool.flusher.empty")
@@ -34,6 +37,7 @@ func (p *Pool) lazyResend() {
 
 			select {
 			case <-p.ctx.Done():
+				p.lazySendM.Unlock()
 				return
 			case p.ch <- n.V():
 				vhook.At("wpool.flusher.send")
